@@ -65,7 +65,7 @@ def run_property(pid, tier="quick", seed=0):
         ch_handles = chk.start(mod.crosshair_kernels(tier))
 
     # 2. symbolic exploration
-    budget = plan.get("time_budget", 420 if tier == "quick" else 2400)
+    budget = plan.get("time_budget", 420 if tier == "quick" else 1500)
     # solver-heavy harnesses can be given a phase of their own (no competition for the cores)
     phases = plan.get("phases") or [hnames]
     agg = {}
